@@ -20,13 +20,13 @@ def amount_only_compared(outs, ev, U):
                 bad.append(where)
             return
         if t[0] == "closure":
-            u = ("p", 100, "u")
+            u = T.P(100, "u")
             for (g, k, x) in ev.summarize_closure(t, [u]):
                 for a, _p in g:
                     walk(a, False, "closure guard")
                 walk(x, False, "closure " + t[1].split("::")[-1])
             for _vid, cap in t[2]:
-                if cap == ("p", 0, "amount"):
+                if cap == T.P(0, "amount"):
                     continue
                 walk(cap, False, "closure capture")
             return
